@@ -8,9 +8,10 @@ PATCH="$1"; TIER="$2"; shift 2
 if ! git -C /repo diff --quiet; then echo "refusing: /repo has uncommitted changes"; exit 2; fi
 if ! git -C /repo apply --check "$PATCH" 2>/dev/null; then echo "patch does not apply: $PATCH"; exit 2; fi
 git -C /repo apply "$PATCH"
-trap 'git -C /repo checkout -- . ; git -C /repo clean -fdq -- gneiss-mqtt gneiss-mqtt-aws 2>/dev/null' EXIT
+SCRATCH=$(mktemp -d /tmp/vmut.XXXXXX)
+trap 'rm -rf "$SCRATCH"; git -C /repo checkout -- . ; git -C /repo clean -fdq -- gneiss-mqtt gneiss-mqtt-aws 2>/dev/null' EXIT
 for id in "$@"; do
-  out=$(VERIF_HOME_OVERRIDE=1 "$HERE/check" $id --tier $TIER 2>&1); rc=$?
+  out=$(VERIF_EVIDENCE_DIR="$SCRATCH" "$HERE/check" $id --tier $TIER 2>&1); rc=$?
   rules=$(echo "$out" | grep -o "rule=[A-Za-z0-9.#_-]*" | sort | uniq -c | tr '\n' ' ')
   inc=$(echo "$out" | grep -c "^INCONCLUSIVE")
   echo "$id rc=$rc inconclusive_lines=$inc $rules"
